@@ -97,22 +97,28 @@ Definition Qf (pr : peer_state) (o : frame_oracle) (x : uuid * tyid * value) : P
 Definition key_fine (pr : peer_state) (k : N) : Prop :=
   (exists s, In s (p_order pr) /\ sys_key s = k) \/ is_Some (p_cmdq pr !! k).
 
+(* a download of asset a of class c from owner's endpoint was requested (the peer was told
+   `MAsset c a owner`) and its payload is not applied yet *)
+Definition downloading (pr : peer_state) (c : aclass) (a : uuid) (owner : peer) : Prop :=
+  In (c, a, owner) (d_pending pr).
+
 (* ---------- the three instances of the invariant ---------------------------------------------- *)
 
 Definition TInv (pr : peer_state) : peer_state -> Prop :=
   Inv (p_sync_types pr) (t_mat pr) (t_mesh pr) (t_audio pr) (p_id pr) (p_order pr)
       (fun _ => True) (fun _ => True) (fun _ => True) (fun _ => True) 0 (fun _ => True)
-      (fun _ _ => True) True (fun _ => True) (fun _ => True).
+      (fun _ _ => True) True (fun _ => True) (fun _ => True) (fun _ _ _ => True).
 
 Definition LInv (pr : peer_state) : peer_state -> Prop :=
   Inv (p_sync_types pr) (t_mat pr) (t_mesh pr) (t_audio pr) (p_id pr) (p_order pr)
       (relayed pr) (known pr) (marked pr) (key_ok pr) (p_next_ent pr) (fun x => known pr x.1.1)
-      (fun _ _ => True) True is_app_cmd (key_fine pr).
+      (fun _ _ => True) True is_app_cmd (key_fine pr) (downloading pr).
 
 Definition FInv (pr : peer_state) (o : frame_oracle) : peer_state -> Prop :=
   Inv (p_sync_types pr) (t_mat pr) (t_mesh pr) (t_audio pr) (p_id pr) (p_order pr)
       (relayed pr) (known pr) (marked pr) (key_ok pr) (p_next_ent pr) (Qf pr o)
-      val_typed (In T_SKIN (p_sync_types pr)) (fun c => is_app_cmd c /\ cmd_typed c) (key_fine pr).
+      val_typed (In T_SKIN (p_sync_types pr)) (fun c => is_app_cmd c /\ cmd_typed c) (key_fine pr)
+      (downloading pr).
 
 Lemma relayed_typed pr u t v : typed_state pr -> relayed pr (MComp u t v) -> val_typed t v.
 Proof.
@@ -157,6 +163,7 @@ Proof.
     + intros d m [].
     + intros k cs c _ _. destruct c; simpl; try exact I; tauto.
     + apply N.le_0_l.
+    + intros c a o' _. left. exact I.
 Qed.
 
 Lemma LInv_start pr : app_cmds_ok pr -> LInv pr (pr <| p_out := [] |>).
@@ -174,6 +181,7 @@ Proof.
     + intros u Hu. do 2 right. left. exists e, en. split; assumption.
     + intros Hm. exists en. split; assumption.
     + intros; exact I.
+  - intros c a o Hin. right. exact Hin.
 Qed.
 
 Lemma LInv_frame pr o : p_panic pr = None -> app_cmds_ok pr -> LInv pr (frame pr o).
@@ -187,7 +195,7 @@ Proof.
   - apply LInv_start. exact Ha.
   - intros s Hs. left. exists s. split; [exact Hs|reflexivity].
   - intros pre t post x _ HI (e & en & c & Hl & Hs & _).
-    destruct (i_ents _ _ _ _ _ _ _ _ _ _ _ _ _ _ _ _ _ HI _ _ Hl) as (Hk & _). apply Hk. exact Hs.
+    destruct (i_ents _ _ _ _ _ _ _ _ _ _ _ _ _ _ _ _ _ _ HI _ _ Hl) as (Hk & _). apply Hk. exact Hs.
 Qed.
 
 Lemma FInv_start pr o :
@@ -208,6 +216,7 @@ Proof.
     + intros u Hu. do 2 right. left. exists e, en. split; assumption.
     + intros Hm. exists en. split; assumption.
     + intros t c Hc. eapply ts_ents; eassumption.
+  - intros c a o' Hin. right. exact Hin.
 Qed.
 
 Lemma FInv_frame pr o :
@@ -235,7 +244,7 @@ Proof.
     split; [exact Hb|]. right. exists pre, t, post. split; [exact Hord|]. split; [exact Hw|].
     split; [exact Hin|].
     destruct Hw as (e & en & c & Hl & _ & Hc & _ & Hm).
-    destruct (i_ents _ _ _ _ _ _ _ _ _ _ _ _ _ _ _ _ _ HI _ _ Hl) as (_ & _ & Hty).
+    destruct (i_ents _ _ _ _ _ _ _ _ _ _ _ _ _ _ _ _ _ _ HI _ _ Hl) as (_ & _ & Hty).
     specialize (Hty _ _ Hc). destruct (c_val c); destruct Hm as [-> _].
     + left. reflexivity.
     + right. split; [reflexivity|exact Hty].
@@ -271,7 +280,7 @@ Qed.
 Definition KInv (pr0 : peer_state) (K : N -> Prop) : peer_state -> Prop :=
   Inv (p_sync_types pr0) (t_mat pr0) (t_mesh pr0) (t_audio pr0) (p_id pr0) (p_order pr0)
       (fun _ => True) (fun _ => True) (fun _ => True) (fun _ => True) 0 (fun _ => True)
-      (fun _ _ => True) True (fun _ => True) K.
+      (fun _ _ => True) True (fun _ => True) K (fun _ _ _ => True).
 
 Lemma trivial_cmd_ok c : cmd_ok (fun _ => True) (fun _ => True) (fun _ _ => True) c.
 Proof. destruct c; simpl; try exact I; tauto. Qed.
@@ -286,6 +295,7 @@ Proof.
   - intros d m _. destruct m; simpl; try exact I; tauto.
   - intros k cs c _ _. apply trivial_cmd_ok.
   - apply N.le_0_l.
+  - intros c a o _. left. exact I.
 Qed.
 
 Lemma apply_cmds_keys pr cs :
@@ -310,7 +320,7 @@ Proof.
   assert (Hs : is_Some (p_cmdq a !! k) /\ sys_key s <> k).
   { destruct (p_cmdq a !! sys_key s) as [cs|] eqn:E.
     - destruct Hk as [x Hx].
-      destruct (i_keys _ _ _ _ _ _ _ _ _ _ _ _ _ _ _ _ _ (apply_cmds_keys (a <| p_cmdq := delete (sys_key s) (p_cmdq a) |>) cs) _ _ Hx)
+      destruct (i_keys _ _ _ _ _ _ _ _ _ _ _ _ _ _ _ _ _ _ (apply_cmds_keys (a <| p_cmdq := delete (sys_key s) (p_cmdq a) |>) cs) _ _ Hx)
         as [y Hy].
       cbn [p_cmdq set] in Hy. apply lookup_delete_Some in Hy as [Hne Hy]. split; [exists y; exact Hy|exact Hne].
     - split; [exact Hk|]. intros <-. rewrite E in Hk. destruct Hk as [x Hx]. discriminate. }
@@ -336,7 +346,7 @@ Proof.
   assert (H0 : KInv pr K (frame_start pr o)).
   { apply Inv_frame_start; try (intros; exact I).
     apply KInv_any; try reflexivity. intros k cs Hl. cbn [p_cmdq set] in Hl. rewrite Hq, lookup_empty in Hl. discriminate. }
-  pose proof (i_order _ _ _ _ _ _ _ _ _ _ _ _ _ _ _ _ _ H0) as Eo. rewrite Eo in *.
+  pose proof (i_order _ _ _ _ _ _ _ _ _ _ _ _ _ _ _ _ _ _ H0) as Eo. rewrite Eo in *.
   assert (Hm : KInv pr K (frame_mid pr o (p_order pr))).
   { apply Inv_run_systems; try (intros; exact I); try exact H0.
     - intros c _. apply trivial_cmd_ok.
@@ -344,8 +354,8 @@ Proof.
   destruct (p_panic (frame_mid pr o (p_order pr))) eqn:Epm.
   - unfold last_schedule in Hpf. cbn [p_panic set] in Hpf. congruence.
   - unfold last_schedule. cbn [p_cmdq set]. apply flush_empties.
-    rewrite (i_order _ _ _ _ _ _ _ _ _ _ _ _ _ _ _ _ _ Hm). intros k [cs Hk].
-    exact (i_keys _ _ _ _ _ _ _ _ _ _ _ _ _ _ _ _ _ Hm _ _ Hk).
+    rewrite (i_order _ _ _ _ _ _ _ _ _ _ _ _ _ _ _ _ _ _ Hm). intros k [cs Hk].
+    exact (i_keys _ _ _ _ _ _ _ _ _ _ _ _ _ _ _ _ _ _ Hm _ _ Hk).
 Qed.
 
 (* with empty command buffers, `relayed` is "sits in an inbox" *)
@@ -371,8 +381,8 @@ Theorem relayed_frame pr o m :
 Proof.
   intros Hp Ha Hr. pose proof (LInv_frame pr o Hp Ha) as HI.
   destruct Hr as [(from & l & Hl & Hin)|(k & cs & c & Hl & Hin & Hr)].
-  - eapply (i_inbox _ _ _ _ _ _ _ _ _ _ _ _ _ _ _ _ _ HI); eassumption.
-  - eapply cmd_ok_relays; [|exact Hr]. eapply (i_cmdq _ _ _ _ _ _ _ _ _ _ _ _ _ _ _ _ _ HI); eassumption.
+  - eapply (i_inbox _ _ _ _ _ _ _ _ _ _ _ _ _ _ _ _ _ _ HI); eassumption.
+  - eapply cmd_ok_relays; [|exact Hr]. eapply (i_cmdq _ _ _ _ _ _ _ _ _ _ _ _ _ _ _ _ _ _ HI); eassumption.
 Qed.
 
 (* a frame invents no uuid *)
@@ -381,28 +391,33 @@ Theorem known_frame pr o u :
 Proof.
   intros Hp Ha Hk. pose proof (LInv_frame pr o Hp Ha) as HI.
   destruct Hk as [(e & Hl)|[(e & Hl)|[(e & en & Hl & Hs)|[(en & Hl & Hm)|[(t & v & Hq)|[Hr|(k & cs & e & Hl & Hin)]]]]]].
-  - eapply (i_u2e _ _ _ _ _ _ _ _ _ _ _ _ _ _ _ _ _ HI); eassumption.
-  - eapply (i_e2u _ _ _ _ _ _ _ _ _ _ _ _ _ _ _ _ _ HI); eassumption.
-  - destruct (i_ents _ _ _ _ _ _ _ _ _ _ _ _ _ _ _ _ _ HI _ _ Hl) as (H & _). apply H. exact Hs.
-  - destruct (i_ents _ _ _ _ _ _ _ _ _ _ _ _ _ _ _ _ _ HI _ _ Hl) as (_ & H & _).
+  - eapply (i_u2e _ _ _ _ _ _ _ _ _ _ _ _ _ _ _ _ _ _ HI); eassumption.
+  - eapply (i_e2u _ _ _ _ _ _ _ _ _ _ _ _ _ _ _ _ _ _ HI); eassumption.
+  - destruct (i_ents _ _ _ _ _ _ _ _ _ _ _ _ _ _ _ _ _ _ HI _ _ Hl) as (H & _). apply H. exact Hs.
+  - destruct (i_ents _ _ _ _ _ _ _ _ _ _ _ _ _ _ _ _ _ _ HI _ _ Hl) as (_ & H & _).
     do 3 right. left. apply H. exact Hm.
-  - exact (i_queue _ _ _ _ _ _ _ _ _ _ _ _ _ _ _ _ _ HI _ Hq).
+  - exact (i_queue _ _ _ _ _ _ _ _ _ _ _ _ _ _ _ _ _ _ HI _ Hq).
   - do 5 right. left. eapply relayed_frame; eassumption.
-  - destruct Hin as [Hin|Hin]; exact (i_cmdq _ _ _ _ _ _ _ _ _ _ _ _ _ _ _ _ _ HI _ _ _ Hl Hin).
+  - destruct Hin as [Hin|Hin]; exact (i_cmdq _ _ _ _ _ _ _ _ _ _ _ _ _ _ _ _ _ _ HI _ _ _ Hl Hin).
 Qed.
 
-(* (3) assets: an originated asset update has its class enabled on this peer (and, for the URL
-   classes, points to this peer's own endpoint) *)
+(* (3) assets: an originated asset update has its class enabled on this peer and, for the URL
+   classes, points either to this peer's own endpoint or — since the repair of S26 (8b1d5d0: a joining
+   client is told where to fetch the assets the host is still downloading) — to the endpoint this peer
+   was itself told to fetch the asset from, by an announcement received earlier whose download is
+   still under way at the start of the frame (`downloading`).  An announcement received in this very
+   frame and repeated in a snapshot of the same frame falls under `relayed`. *)
 Theorem originated_assets_enabled pr o :
   p_panic pr = None -> app_cmds_ok pr ->
   (forall dst a v, In (dst, MMaterial a v) (p_out (frame pr o)) ->
      relayed pr (MMaterial a v) \/ t_mat pr = true) /\
   (forall dst c a owner, In (dst, MAsset c a owner) (p_out (frame pr o)) ->
-     relayed pr (MAsset c a owner) \/ (class_enabled pr (KClass c) = true /\ owner = p_id pr)).
+     relayed pr (MAsset c a owner) \/
+     (class_enabled pr (KClass c) = true /\ (owner = p_id pr \/ downloading pr c a owner))).
 Proof.
   intros Hp Ha. pose proof (LInv_frame pr o Hp Ha) as HI. split.
-  - intros dst a v Hin. exact (i_out _ _ _ _ _ _ _ _ _ _ _ _ _ _ _ _ _ HI _ _ Hin).
-  - intros dst c a owner Hin. pose proof (i_out _ _ _ _ _ _ _ _ _ _ _ _ _ _ _ _ _ HI _ _ Hin) as H.
+  - intros dst a v Hin. exact (i_out _ _ _ _ _ _ _ _ _ _ _ _ _ _ _ _ _ _ HI _ _ Hin).
+  - intros dst c a owner Hin. pose proof (i_out _ _ _ _ _ _ _ _ _ _ _ _ _ _ _ _ _ _ HI _ _ Hin) as H.
     simpl in H. destruct H as [H|[H1 H2]]; [left; exact H|right]. split; [|exact H2].
     destruct c; exact H1.
 Qed.
@@ -414,7 +429,7 @@ Theorem originated_subjects_known pr o :
     relayed pr m \/ forall u, In u (msg_subjects m) -> known pr u.
 Proof.
   intros Hp Ha dst m Hin. pose proof (LInv_frame pr o Hp Ha) as HI.
-  pose proof (i_out _ _ _ _ _ _ _ _ _ _ _ _ _ _ _ _ _ HI _ _ Hin) as H.
+  pose proof (i_out _ _ _ _ _ _ _ _ _ _ _ _ _ _ _ _ _ _ HI _ _ Hin) as H.
   destruct m; simpl in H; simpl msg_subjects; [| | | |right; intros ? []..].
   - destruct H as [H|H]; [left; exact H|right]. intros u' [<-|[]]. exact H.
   - destruct H as [H|[H1 H2]]; [left; exact H|right]. intros u' [<-|[<-|[]]]; assumption.
@@ -448,7 +463,7 @@ Theorem unmarked_stays_untracked pr o e :
 Proof.
   intros Hp Ha Hn Hm Hlt. pose proof (LInv_frame pr o Hp Ha) as HI.
   destruct (t_e2u (frame pr o) !! e) as [u|] eqn:E; [|reflexivity]. exfalso.
-  destruct (i_e2u _ _ _ _ _ _ _ _ _ _ _ _ _ _ _ _ _ HI _ _ E) as [_ [[x Hx]|[H|H]]].
+  destruct (i_e2u _ _ _ _ _ _ _ _ _ _ _ _ _ _ _ _ _ _ HI _ _ E) as [_ [[x Hx]|[H|H]]].
   - congruence.
   - exact (Hm H).
   - lia.
@@ -465,7 +480,7 @@ Theorem component_provenance pr o :
   forall dst u t v, In (dst, MComp u t v) (p_out (frame pr o)) -> comp_provenance pr o u t v.
 Proof.
   intros Hp Hq Ho Ht Ha dst u t v Hin. pose proof (FInv_frame pr o Hp Hq Ho Ht Ha) as HI.
-  exact (i_out _ _ _ _ _ _ _ _ _ _ _ _ _ _ _ _ _ HI _ _ Hin).
+  exact (i_out _ _ _ _ _ _ _ _ _ _ _ _ _ _ _ _ _ _ HI _ _ Hin).
 Qed.
 
 Theorem queued_at_detection pr o :
@@ -473,7 +488,7 @@ Theorem queued_at_detection pr o :
   forall x, In x (t_queue (frame pr o)) -> opted pr x /\ (In x (t_queue pr) \/ detected_in pr o x).
 Proof.
   intros Hp Hq Ho Ht Ha x Hin. pose proof (FInv_frame pr o Hp Hq Ho Ht Ha) as HI.
-  exact (i_queue _ _ _ _ _ _ _ _ _ _ _ _ _ _ _ _ _ HI _ Hin).
+  exact (i_queue _ _ _ _ _ _ _ _ _ _ _ _ _ _ _ _ _ _ HI _ Hin).
 Qed.
 
 Lemma relayed_frame_typed pr o u t v :
@@ -488,19 +503,19 @@ Proof.
   intros Hp Hq Ho Ht Ha. pose proof (FInv_frame pr o Hp Hq Ho Ht Ha) as HI.
   destruct (frame_config pr o) as (Ety & _ & _ & _ & _ & Eor).
   split; [|split; [|split]].
-  - intros u t v Hin. destruct (i_queue _ _ _ _ _ _ _ _ _ _ _ _ _ _ _ _ _ HI _ Hin) as [(_ & Hw & Hs) _].
+  - intros u t v Hin. destruct (i_queue _ _ _ _ _ _ _ _ _ _ _ _ _ _ _ _ _ _ HI _ Hin) as [(_ & Hw & Hs) _].
     split; [|exact Hs]. unfold wire_opted in *. rewrite Ety. exact Hw.
   - intros t Hin. rewrite Ety. apply Ho. rewrite <- Eor. exact Hin.
   - constructor.
-    + intros e en t c Hl Hc. destruct (i_ents _ _ _ _ _ _ _ _ _ _ _ _ _ _ _ _ _ HI _ _ Hl) as (_ & _ & H).
+    + intros e en t c Hl Hc. destruct (i_ents _ _ _ _ _ _ _ _ _ _ _ _ _ _ _ _ _ _ HI _ _ Hl) as (_ & _ & H).
       eapply H. exact Hc.
     + intros from l u t v Hl Hin. eapply relayed_typed; [exact Ht|].
-      eapply (i_inbox _ _ _ _ _ _ _ _ _ _ _ _ _ _ _ _ _ HI); eassumption.
-    + intros k cs c Hl Hin. pose proof (i_cmdq _ _ _ _ _ _ _ _ _ _ _ _ _ _ _ _ _ HI _ _ _ Hl Hin) as Hc.
+      eapply (i_inbox _ _ _ _ _ _ _ _ _ _ _ _ _ _ _ _ _ _ HI); eassumption.
+    + intros k cs c Hl Hin. pose proof (i_cmdq _ _ _ _ _ _ _ _ _ _ _ _ _ _ _ _ _ _ HI _ _ _ Hl Hin) as Hc.
       destruct c; simpl in *; try exact I; try tauto.
       destruct m; try exact I. eapply relayed_typed; eassumption.
-    + intros n c Hin. apply (i_app _ _ _ _ _ _ _ _ _ _ _ _ _ _ _ _ _ HI _ _ Hin).
-  - intros n c Hin. apply (i_app _ _ _ _ _ _ _ _ _ _ _ _ _ _ _ _ _ HI _ _ Hin).
+    + intros n c Hin. apply (i_app _ _ _ _ _ _ _ _ _ _ _ _ _ _ _ _ _ _ HI _ _ Hin).
+  - intros n c Hin. apply (i_app _ _ _ _ _ _ _ _ _ _ _ _ _ _ _ _ _ _ HI _ _ Hin).
 Qed.
 
 Theorem originated_components_opted_in pr o :
@@ -617,7 +632,10 @@ Theorem snapshot_opted pr m :
         | w => t' = t /\ v = w
         end
   | MMaterial _ _ => t_mat pr = true
-  | MAsset c _ owner => class_enabled pr (KClass c) = true /\ owner = p_id pr
+  | MAsset c a owner =>
+      class_enabled pr (KClass c) = true /\
+      ((owner = p_id pr /\ ~ download_pending pr c a /\ exists v, a_store pr !! akey (KClass c) a = Some v) \/
+       (In (a, owner) (pending_of pr c) /\ latest_owner pr c a owner))
   | _ => False
   end.
 Proof.
@@ -631,7 +649,10 @@ Proof.
     apply snapshot_parent_msgs_In in Hin as (su & q & tk & u & pu & Hs & Hp & Hu & Hq & ->).
     exists e, en, q, tk. split; [exact Hl|]. split; [eexists; exact Hs|]. split; [exact Hp|]. split; assumption.
   - destruct H as (Hm & a & v & ->). exact Hm.
-  - destruct H as (c & a & Hc & ->). split; [exact Hc|reflexivity].
+  - destruct H as (c & a & o & Hc & -> & Hj). split; [exact Hc|].
+    destruct Hj as [(-> & Hn & v & Hv)|Hp].
+    + left. split; [reflexivity|]. split; [exact Hn|]. exists v. apply assets_of_kind_In. exact Hv.
+    + right. split; [exact Hp|apply pending_of_latest; exact Hp].
 Qed.
 
 (* entity_created_on_server / _on_client announce exactly the newly marked entities *)
@@ -1181,6 +1202,38 @@ Proof. vm_compute. reflexivity. Qed.
 Example ex_assets_hyps b : p_panic (ex_assets b) = None /\ app_cmds_ok (ex_assets b).
 Proof. split; [reflexivity|intros n c []]. Qed.
 
+(* assets under download: the host (0) was told by client 7 to fetch mesh 9 from 7's endpoint and the
+   download is not applied yet; a joining client (8) is sent the snapshot in this frame.  Mesh 4, which
+   the host holds, is announced at the host's endpoint, mesh 9 at the endpoint of 7 *)
+Definition ex_pending : peer_state :=
+  ex_state <| p_order := [SSync] |> <| t_mesh := true |>
+           <| a_store := {[ akey (KClass AMesh) 4 := 44 ]} |>
+           <| d_pending := [(AMesh, 9, 7)] |>
+           <| p_cmdq := {[ sys_key SSync := [CSendInitialSync 8] ]} |>.
+Example ex_pending_out :
+  p_out (frame ex_pending ex_oracle) =
+    [(8, MSpawn 1); (8, MSpawn 2); (8, MComp 1 T_A (VN 5));
+     (8, MAsset AMesh 4 0); (8, MAsset AMesh 9 7); (8, MFinInit)].
+Proof. vm_compute. reflexivity. Qed.
+
+(* the justification of originated_assets_enabled as it was before the repair of S26 ("... and
+   owner = p_id pr") does not hold any more: the announcement of mesh 9 is no copy of a received message
+   still held, and names another peer's endpoint *)
+Example own_endpoint_only_refuted :
+  exists pr o dst c a owner,
+    p_panic pr = None /\ app_cmds_ok pr /\ In (dst, MAsset c a owner) (p_out (frame pr o)) /\
+    ~ relayed pr (MAsset c a owner) /\ owner <> p_id pr /\
+    class_enabled pr (KClass c) = true /\ downloading pr c a owner.
+Proof.
+  exists ex_pending, ex_oracle, 8, AMesh, 9, 7.
+  split; [reflexivity|]. split; [intros n c []|]. split; [rewrite ex_pending_out; cbn; tauto|].
+  split; [|split; [discriminate|split; [reflexivity|left; reflexivity]]].
+  intros [(from & l & Hl & _)|(k & cs & c & Hl & Hin & Hr)].
+  - vm_compute in Hl. discriminate.
+  - change (p_cmdq ex_pending) with ({[ sys_key SSync := [CSendInitialSync 8] ]} : gmap N (list cmd)) in Hl.
+    apply lookup_singleton_Some in Hl as [_ <-]. destruct Hin as [<-|[]]. exact Hr.
+Qed.
+
 (* a trace of the global system that satisfies the discipline and makes a component travel *)
 Definition ex_o1 : frame_oracle :=
   {| fo_conn_events := []; fo_clients := [1]; fo_status := None; fo_srv_poll := []; fo_cli_poll := 0%nat;
@@ -1286,6 +1339,7 @@ Print Assumptions snapshot_opted.
 Print Assumptions component_provenance.
 Print Assumptions originated_components_opted_in.
 Print Assumptions originated_assets_enabled.
+Print Assumptions own_endpoint_only_refuted.
 Print Assumptions originated_subjects_known.
 Print Assumptions never_marked_never_sent.
 Print Assumptions unmarked_stays_untracked.
